@@ -127,12 +127,27 @@ def check_labels(s, shown, exps, case, V):
                 V.append(Violation('labels.as_matcher', case, {
                     'matcher': spelling, 'expected': want_lines, 'observed': got, 'err': err}))
                 break
+    # labels of different connections in one matcher: each alternative keeps its own connection part
+    firsts = {}
+    for (cn, lab), want in sorted(sets.items()):
+        firsts.setdefault(cn, (lab.split('@', 1)[1], want))
+    if len(firsts) >= 2:
+        (c1, (l1, w1)), (c2, (l2, w2)) = sorted(firsts.items())[:2]
+        for spelling in ('%s: %s, %s: %s' % (c1, l1, c2, l2), '%s: %s, %s: %s' % (c2, l2, c1, l1)):
+            got, err = listed(s, spelling, shown)
+            want_lines = [shown[i] for i in sorted(w1 | w2)]
+            if got != want_lines or err:
+                V.append(Violation('labels.of_two_connections', case, {'matcher': spelling, 'expected': want_lines, 'observed': got, 'err': err}))
+                break
     for cn in sorted({cn for cn, _ in exps}):
         got, err = listed(s, cn + ':', shown)
         want_lines = [shown[i] for i, (c2, _) in enumerate(exps) if c2 == cn]
         # messages on an object whose creation was never seen are shown without a connection name: whether `B:` selects
         # them is not decided here (upstream files them under the name `unknown`)
-        undecided = {shown[i] for i, (c2, e2) in enumerate(exps) if e2.get('orphan')}
+        # ... unless the tool itself displays such a line under a connection name: a displayed label must work as a matcher
+        def displayed_conn(line):
+            return (outparse.classify(line)[1] or {}).get('conn') or ''
+        undecided = {shown[i] for i, (c2, e2) in enumerate(exps) if e2.get('orphan') and not displayed_conn(shown[i])}
         got = [l for l in got if l not in undecided]
         want_lines = [l for l in want_lines if l not in undecided]
         if got != want_lines or err:
